@@ -258,3 +258,236 @@ func reportsExpression(w *World, f *Func, depth int) []evtFinding {
 	}
 	return runEVT(w, f, r)
 }
+
+// ---------------------------------------------------------------------------------------------------------------------
+// registration reaches the dispatch table (C16.R8 for functions, C17.R6 for commands)
+//
+// A public registration call that succeeds must have put the host's function (or its converted bridge) into the table
+// the dispatcher reads, under the name the host gave — exactly once, and nothing when it reports an error. The rule
+// follows the relay chain API -> storer method -> map store through resolved callees.
+
+type regTables struct {
+	fields map[*types.Var]string // table field -> "function" / "command"
+}
+
+func registryTables(w *World) regTables {
+	rt := regTables{fields: map[*types.Var]string{}}
+	root := w.Pkg("")
+	for _, name := range root.Types.Scope().Names() {
+		tn, ok := root.Types.Scope().Lookup(name).(*types.TypeName)
+		if !ok {
+			continue
+		}
+		st, ok := tn.Type().Underlying().(*types.Struct)
+		if !ok {
+			continue
+		}
+		for i := 0; i < st.NumFields(); i++ {
+			m, ok := st.Field(i).Type().Underlying().(*types.Map)
+			if !ok {
+				continue
+			}
+			switch typeStr(m.Elem()) {
+			case "ysgo.YarnSpinnerFunction":
+				rt.fields[st.Field(i)] = "function"
+			case "ysgo.YarnSpinnerCommand":
+				rt.fields[st.Field(i)] = "command"
+			}
+		}
+	}
+	return rt
+}
+
+// registers: on every path of f that returns without an error, the value parameter valIdx (or its conversion, under a
+// nil conversion error) is stored exactly once in a table of the wanted kind under the name parameter idIdx; a path that
+// returns an error has stored nothing. Returns the findings (none = holds).
+func registers(w *World, rt regTables, f *Func, idIdx, valIdx int, kind string, depth int) []string {
+	if f == nil || f.Body == nil || f.Decl == nil || depth > 3 {
+		return []string{"registration relayed to a function without a body, or too deep"}
+	}
+	info := f.Pkg.TypesInfo
+	sig := f.Sig()
+	if idIdx >= sig.Params().Len() || valIdx >= sig.Params().Len() {
+		return []string{"unexpected signature of " + f.Name}
+	}
+	idP, valP := types.Object(sig.Params().At(idIdx)), types.Object(sig.Params().At(valIdx))
+	e := w.ent(f)
+	x := w.expander(f)
+	isID := func(a ast.Expr) bool {
+		id := identOf(a)
+		return id != nil && info.Uses[id] == idP
+	}
+	// the value: the parameter itself, or result #0 of a call on the parameter whose error is entailed nil at the use
+	isVal := func(a ast.Expr, at ast.Node) bool {
+		id := identOf(a)
+		if id == nil {
+			return false
+		}
+		if info.Uses[id] == valP {
+			return true
+		}
+		v, ok := info.Uses[id].(*types.Var)
+		if !ok {
+			return false
+		}
+		rhs, idx, _, ok := x.def(v)
+		if !ok || rhs == nil || idx != 0 {
+			return false
+		}
+		call, ok := unparen(rhs).(*ast.CallExpr)
+		if !ok || len(call.Args) != 1 || identOf(call.Args[0]) == nil || info.Uses[identOf(call.Args[0])] != valP {
+			return false
+		}
+		as, ok := w.parent[call].(*ast.AssignStmt)
+		if !ok || len(as.Lhs) != 2 || identOf(as.Lhs[1]) == nil || identOf(as.Lhs[1]).Name == "_" {
+			return false
+		}
+		st := site{pos: at.Pos(), anc: at}
+		ok2, _ := e.Prove(at, Not{e.nn(keyCtx{e: e, s: &st}, as.Lhs[1])})
+		return ok2
+	}
+	var relayRet = map[*ast.CallExpr]bool{}
+	var notes []string
+	r := evtRule{
+		start: "idle",
+		prim: func(n ast.Node) []string {
+			switch y := n.(type) {
+			case *ast.AssignStmt:
+				if len(y.Lhs) != len(y.Rhs) {
+					return nil
+				}
+				for i, l := range y.Lhs {
+					ix, ok := unparen(l).(*ast.IndexExpr)
+					if !ok {
+						continue
+					}
+					k, isTable := rt.fields[lastField(info, ix.X)]
+					if !isTable {
+						continue
+					}
+					if k == kind && isID(ix.Index) && isVal(y.Rhs[i], y) {
+						return []string{"STORE"}
+					}
+					notes = append(notes, w.Pos(y.Pos())+": stores "+x.str(y.Rhs[i])+" under "+x.str(ix.Index)+" in the "+k+" table")
+					return []string{"BADSTORE"}
+				}
+			case *ast.CallExpr:
+				callee := calleeOf(info, y)
+				if callee == nil {
+					return nil
+				}
+				g := w.byObj[callee]
+				if g == nil || g.Body == nil {
+					return nil
+				}
+				gi, gv := -1, -1
+				for i, a := range y.Args {
+					if isID(a) {
+						gi = i
+					} else if isVal(a, y) {
+						gv = i
+					}
+				}
+				if gi < 0 || gv < 0 {
+					return nil
+				}
+				if sub := registers(w, rt, g, gi, gv, kind, depth+1); len(sub) == 0 {
+					relayRet[y] = true
+					return []string{"STORE"}
+				} else {
+					notes = append(notes, sub...)
+				}
+			}
+			return nil
+		},
+		step: func(st, ev string) string {
+			switch {
+			case ev == "BADSTORE":
+				return "bad"
+			case ev == "STORE" && st == "idle":
+				return "stored"
+			case ev == "STORE" && st == "stored":
+				return "twice"
+			}
+			return ""
+		},
+		ret: func(st string, ret *ast.ReturnStmt, k string) string {
+			relayed := false
+			if len(ret.Results) == 1 {
+				if call, ok := unparen(ret.Results[0]).(*ast.CallExpr); ok && relayRet[call] {
+					relayed = true
+				}
+			}
+			switch {
+			case st == "bad":
+				return "a store into the dispatch table that is not (name parameter -> registered value)"
+			case st == "twice":
+				return "the registration is stored twice"
+			case relayed:
+				return ""
+			case st == "idle" && (k == "nil" || k == "void"):
+				return "the registration call can return successfully without having stored anything in the " + kind + " table: the name stays unknown to scripts"
+			case st == "idle" && (k == "unknown" || k == "relay"):
+				return "the registration call returns a result that is not tied to a store in the " + kind + " table"
+			case st == "stored" && k != "nil" && k != "void":
+				return "an error can be returned after the " + kind + " table was written: a refused registration must register nothing"
+			}
+			return ""
+		},
+	}
+	var out []string
+	for _, fd := range runEVT(w, f, r) {
+		out = append(out, w.Pos(fd.pos)+": "+fd.msg)
+	}
+	if len(out) > 0 {
+		out = append(out, notes...)
+	}
+	return out
+}
+
+// checkRegistration emits one obligation per public registration call of the wanted kind.
+func checkRegistration(c *Ctx, rule, kind string, min int) {
+	w := c.W
+	m := w.runner()
+	rt := registryTables(w)
+	n := 0
+	for _, k := range rt.fields {
+		if k == kind {
+			n++
+		}
+	}
+	if n == 0 {
+		c.undecided(rule, "no "+kind+" dispatch table (map to YarnSpinner"+strings.ToUpper(kind[:1])+kind[1:]+") found")
+		return
+	}
+	found := 0
+	for _, f := range w.FuncsIn(m.pkg) {
+		if f.Decl == nil || f.Decl.Recv == nil || f.Obj == nil || !f.Obj.Exported() || f.Body == nil {
+			continue
+		}
+		sig := f.Sig()
+		if typeStr(sig.Recv().Type()) != "*ysgo.DialogueRunner" || sig.Params().Len() != 2 || typeStr(sig.Params().At(0).Type()) != "string" {
+			continue
+		}
+		pt := typeStr(sig.Params().At(1).Type())
+		want := map[string]string{"function": "ysgo.YarnSpinnerFunction", "command": "ysgo.YarnSpinnerCommand"}[kind]
+		isAny := pt == "any" || pt == "interface{}"
+		if pt != want && !isAny {
+			continue
+		}
+		if isAny && !strings.Contains(strings.ToLower(f.Decl.Name.Name), kind) {
+			continue
+		}
+		found++
+		c.fn(f)
+		fs := registers(w, rt, f, 0, 1, kind, 0)
+		if len(fs) == 0 {
+			c.ob(rule, f.Name+"/registers", w.Pos(f.Decl.Pos()), true, "every successful return has stored the (converted) "+kind+" once in the dispatch table under the given name; an error return has stored nothing")
+		} else {
+			c.ob(rule, f.Name+"/registers", w.Pos(f.Decl.Pos()), false, strings.Join(fs, " | "))
+		}
+	}
+	if found < min {
+		c.undecided(rule, "only "+itoa(found)+" public "+kind+" registration calls found on DialogueRunner")
+	}
+}
